@@ -182,7 +182,7 @@ def check(ctx):
             if fld.startswith("?"):
                 ctx.ob("R-WHO", fld[1:], "single-consumer@" + base, False, "a may_queue single-consumer operation is used on a queue that is not in the confinement table (%s in %s)" % (fld[1:], base), f.where(pt))
             else:
-                ok = base in frozen[fld]
+                ok = base in ctx.expand_allowed(frozen[fld])
                 ctx.ob("R-WHO", fld, "single-consumer@" + base, ok, "consumer-side operation on %s in %s (allowed: one thread at a time by construction)" % (fld, base) if ok else
                        "%s uses the single-consumer side of %s; only %s may (two consumers corrupt the queue)" % (base, fld, sorted(frozen[fld])), f.where(pt))
     if n < 8:
